@@ -1411,6 +1411,10 @@ static int cfg_parse_internal(cfg_t *cfg, int level, int force_state, cfg_opt_t 
 			return STATE_EOF;
 		}
 
+		/* Only a comment in front of an option can be an annotation */
+		if (tok == CFGT_COMMENT && state != 0)
+			continue;
+
 		switch (state) {
 		case 0:	/* expecting an option name */
 			if (opt && is_set(CFGF_DEPRECATED, opt->flags))
